@@ -1,8 +1,10 @@
 package props
 
 import (
+	"bytes"
 	"crypto/elliptic"
 	"crypto/sha256"
+	"encoding/binary"
 	"fmt"
 	"math/big"
 	mrand "math/rand"
@@ -112,6 +114,37 @@ func faults01() []fault01 {
 			k := world.NewKey()
 			h := sha256.Sum256(append(world.RawPub(&k.PublicKey), w.Q.AuthData...))
 			copy(w.Q.QeReport[0x140:], h[:])
+			w.Q.SignQE(w.PKI.Leaf.Key)
+		}},
+		// the right digest, but not where the binding puts it: anywhere else inside the 64-byte field (zeros around it), signed
+		// properly by the PCK key
+		{"report-data-digest-at-another-offset", "reject", func(w *world.World, r *mrand.Rand) {
+			c := []int{1, 2, 7, 16, 31, 32}[r.Intn(6)]
+			if r.Intn(3) == 0 {
+				c = 1 + r.Intn(32)
+			}
+			h := append([]byte{}, w.Q.QeReport[0x140:0x160]...)
+			copy(w.Q.QeReport[0x140:0x180], make([]byte, 64))
+			copy(w.Q.QeReport[0x140+c:], h)
+			w.Q.SignQE(w.PKI.Leaf.Key)
+		}},
+		// a digest that begins (or ends) with zero bytes, moved left over its own zero (or right, onto the padding)
+		{"report-data-digest-slid-over-its-own-zero", "reject", func(w *world.World, r *mrand.Rand) {
+			front := r.Intn(2) == 0
+			for i := 0; ; i++ { // 1 in 256 authentication data values gives such a digest
+				w.Q.AuthData = binary.LittleEndian.AppendUint32(append([]byte{}, w.Q.AuthData[:len(w.Q.AuthData)&^3]...), uint32(i))
+				w.Q.BindQE()
+				if d := w.Q.QeReport[0x140:0x160]; (front && d[0] == 0 && d[1] != 0) || (!front && d[31] == 0 && d[30] != 0) {
+					break
+				}
+			}
+			d := append([]byte{}, w.Q.QeReport[0x140:0x160]...)
+			copy(w.Q.QeReport[0x140:0x180], make([]byte, 64))
+			if front {
+				copy(w.Q.QeReport[0x140:], d[1:])
+			} else {
+				copy(w.Q.QeReport[0x141:], d)
+			}
 			w.Q.SignQE(w.PKI.Leaf.Key)
 		}},
 		{"authdata-extended-not-rebound", "reject", func(w *world.World, r *mrand.Rand) { w.Q.AuthData = append(w.Q.AuthData, byte(r.Intn(256))) }},
@@ -487,6 +520,66 @@ func c01(x *mon.Ctx) {
 		}
 	}
 	x.Require("message-field-length", 0, 5*27*5, 5*27*5)
+	// ---- (a''b) the boundary between two neighbouring fields moved: k bytes leave the end of one field and join the front of
+	//      the next (or the other way round). The concatenation — what is signed — is unchanged, the total length too, but the
+	//      message no longer says what was signed (RTMR[i] of such a message is not the signed RTMR[i]).
+	for _, s := range srcs {
+		base := mon.MessageFor("built", s.c.Quote)
+		if base == nil {
+			continue
+		}
+		type pf struct {
+			name string
+			a, b func(m *pb.QuoteV4) *[]byte
+		}
+		rt := func(i int) func(m *pb.QuoteV4) *[]byte {
+			return func(m *pb.QuoteV4) *[]byte { return &m.TdQuoteBody.Rtmrs[i] }
+		}
+		qr := func(m *pb.QuoteV4) *pb.EnclaveReport {
+			return m.SignedData.CertificationData.QeReportCertificationData.QeReport
+		}
+		pairs := []pf{
+			{"rtmr0|rtmr1", rt(0), rt(1)}, {"rtmr1|rtmr2", rt(1), rt(2)}, {"rtmr2|rtmr3", rt(2), rt(3)}, {"rtmr0|rtmr3", rt(0), rt(3)},
+			{"mr_td|mr_config_id", func(m *pb.QuoteV4) *[]byte { return &m.TdQuoteBody.MrTd }, func(m *pb.QuoteV4) *[]byte { return &m.TdQuoteBody.MrConfigId }},
+			{"mr_owner_config|rtmr0", func(m *pb.QuoteV4) *[]byte { return &m.TdQuoteBody.MrOwnerConfig }, rt(0)},
+			{"rtmr3|report_data", rt(3), func(m *pb.QuoteV4) *[]byte { return &m.TdQuoteBody.ReportData }},
+			{"td_attributes|xfam", func(m *pb.QuoteV4) *[]byte { return &m.TdQuoteBody.TdAttributes }, func(m *pb.QuoteV4) *[]byte { return &m.TdQuoteBody.Xfam }},
+			{"qe.mr_enclave|qe.reserved2", func(m *pb.QuoteV4) *[]byte { return &qr(m).MrEnclave }, func(m *pb.QuoteV4) *[]byte { return &qr(m).Reserved2 }},
+			{"qe.reserved4|qe.report_data", func(m *pb.QuoteV4) *[]byte { return &qr(m).Reserved4 }, func(m *pb.QuoteV4) *[]byte { return &qr(m).ReportData }},
+			{"signature|attestation_key", func(m *pb.QuoteV4) *[]byte { return &m.SignedData.Signature }, func(m *pb.QuoteV4) *[]byte { return &m.SignedData.EcdsaAttestationKey }},
+		}
+		for pi, p := range pairs {
+			for _, k := range []int{1, 2, 7, -1, -7, 1000, -1000} { // ±1000: the whole field
+				m := proto.Clone(base).(*pb.QuoteV4)
+				a, b := p.a(m), p.b(m)
+				if p.name == "rtmr0|rtmr3" { // not neighbours: the bytes travel through the two in between
+					all := bytes.Join(m.TdQuoteBody.Rtmrs, nil)
+					kk := min(max(k, -len(*a)), len(*b))
+					cut := []int{len(*a) + kk, len(*a) + kk + 48, len(*a) + kk + 96}
+					if k == 1000 || k == -1000 {
+						cut = []int{0, 0, 0}
+						if k < 0 {
+							cut = []int{len(all), len(all), len(all)}
+						}
+					}
+					m.TdQuoteBody.Rtmrs = [][]byte{all[:cut[0]], all[cut[0]:cut[1]], all[cut[1]:cut[2]], all[cut[2]:]}
+				} else {
+					both := append(append([]byte{}, *a...), *b...)
+					at := min(max(len(*a)-k, 0), len(both))
+					*a, *b = both[:at:at], both[at:]
+				}
+				wire, err := proto.Marshal(m)
+				if err != nil {
+					continue
+				}
+				c := *s.c
+				c.Msg = wire
+				c.Class, c.Param, c.Expect, c.Twin = "message-field-boundary-moved", fmt.Sprintf("%s/%s/%+d", s.name, p.name, k), "reject", "bitflip-source"
+				check(x, pi, &c)
+			}
+		}
+	}
+	x.Require("message-field-boundary-moved", 0, 5*11*7, 5*11*7)
 
 	// ---- (a3) the caller edits the message IN PLACE between two verifications through one options value: the second
 	//      verdict must be the verdict of the edited message (whatever the library remembered about the slices it saw)
